@@ -547,7 +547,7 @@ PROPS['C12'] = dict(
 )
 
 # Wick's theorem at coinciding frequencies rests on the resonance tolerance reaching the parts (floating-point noise between degenerate levels)
-PROPS['C12']['units'] += [dict(u, name='c02_' + u['name'], split={'quad': [5, 6, 10], 'clear': [0], 'beta': [2]}, validate=[])
+PROPS['C12']['units'] += [dict(u, name='c02_' + u['name'], split={'quad': [5, 6, 10], 'clear': [0], 'beta': [2]}, validate=[], witnesses=['done', 'tolerances_checked'])
                           for u in PROPS['C02']['units'] if u['name'] == '2pgftable']
 PROPS['C12']['claim'] += ('  Unit c02_2pgftable: the resonance / coefficient tolerances set on a two-particle component reach every part it creates (the vertex of a model '
                           'with degenerate levels is computed from eigenvalues that agree only up to rounding; the resonance tolerance is what absorbs that).')
